@@ -79,20 +79,32 @@ func curGID() uint64 {
 }
 
 // creatorName derives a stable name for an adopted goroutine from the
-// function that created it.
-func creatorName() string {
+// function that created it and the goroutine it was created by.
+func creatorName() (string, uint64) {
 	buf := make([]byte, 16384)
 	n := runtime.Stack(buf, false)
 	s := string(buf[:n])
 	if i := strings.LastIndex(s, "created by "); i >= 0 {
 		s = s[i+len("created by "):]
+		var parent uint64
+		if j := strings.IndexAny(s, "\n"); j >= 0 {
+			line := s[:j]
+			if k := strings.Index(line, " in goroutine "); k >= 0 {
+				for _, c := range line[k+len(" in goroutine "):] {
+					if c < '0' || c > '9' {
+						break
+					}
+					parent = parent*10 + uint64(c-'0')
+				}
+			}
+		}
 		if j := strings.IndexAny(s, " \n"); j >= 0 {
 			s = s[:j]
 		}
 		s = strings.TrimPrefix(s, "github.com/sassoftware/relic/v8/")
-		return s
+		return s, parent
 	}
-	return "root"
+	return "root", 0
 }
 
 // Name registers the calling goroutine under an explicit task name.
@@ -134,7 +146,15 @@ func (s *Sched) Yield(tag string) bool {
 	}
 	t := s.tasks[gid]
 	if t == nil {
-		name := "g:" + creatorName()
+		// the name must not depend on which of several goroutines woken at one
+		// virtual instant gets here first: it is derived from the creating
+		// function and the creating task, which starts its children one after
+		// the other
+		fn, parent := creatorName()
+		name := "g:" + fn
+		if pt := s.tasks[parent]; pt != nil && !strings.HasPrefix(pt.Name, "main") {
+			name = "g:" + pt.Name + ">" + fn
+		}
 		s.names[name]++
 		if c := s.names[name]; c > 1 {
 			name = fmt.Sprintf("%s#%d", name, c)
